@@ -33,6 +33,7 @@ import LinVerif.Lemmas.C11Expr
 import LinVerif.Lemmas.C11Groups
 import LinVerif.Lemmas.C11Sorted
 import LinVerif.Lemmas.C11Sources
+import LinVerif.Lemmas.C11Block
 import LinVerif.Generated.C11
 import LinVerif.Driver.C11
 
@@ -1139,6 +1140,142 @@ theorem select_item_eq_naive_any_function_partial (w : Nat) (hw : 0 < w) (sch : 
   rw [hq] at this
   rw [this]
 
+/-! ## the flushed metric block: series buckets per roaring high key, offsets and their bases
+
+`Model/MetricBlock.lean` mirrors `metricsdata.flusher` / `metricReader` at the level of positions.
+The field offsets of a series entry are taken against `Level4.startAt`; the deferred function of
+`FlushSeries` re-bases it to the writer's position after every series, and the high-key branch must
+re-base it AGAIN after it wrote the previous bucket's footer. -/
+
+open LinVerif.MetricBlock LinVerif.Lemmas.C11Block in
+/-- the field-offset base is the writer's position and no field offset is pending. -/
+def Rebased (w : LinVerif.MetricBlock.W) : Prop := w.l4 = w.size ∧ w.fOffs = []
+
+open LinVerif.MetricBlock LinVerif.Lemmas.C11Block in
+/-- `FlushSeries` re-establishes `Rebased` (the deferred function) … -/
+theorem flushSeries_rebased (c : LinVerif.MetricBlock.Cfg) (e : Enc) (nf : Nat) (w : W) (sid : Nat) (flds : List Nat) :
+    Rebased (flushSeries c e nf w sid flds) := by
+  unfold flushSeries Rebased
+  split <;> simp
+
+open LinVerif.MetricBlock LinVerif.Lemmas.C11Block in
+/-- … hence it holds before EVERY series of ANY metric block (any ids, any number of containers). -/
+theorem block_writer_rebased (c : LinVerif.MetricBlock.Cfg) (e : Enc) (nf : Nat) (series : List (Nat × List Nat)) (w : W)
+    (h : Rebased w) : Rebased (series.foldl (fun w s => flushSeries c e nf w s.1 s.2) w) := by
+  induction series generalizing w with
+  | nil => exact h
+  | cons s rest ih => exact ih _ (flushSeries_rebased c e nf w s.1 s.2)
+
+open LinVerif.MetricBlock LinVerif.Lemmas.C11Block in
+/-- SERIES ENTRY ROUND TRIP, every series of every block: whatever was flushed before (`Rebased`
+holds by `block_writer_rebased`), whichever branch `FlushSeries` takes (same high key / first high
+key / ANOTHER high key: previous bucket's footer, new bucket), the entry it writes — from the
+writer's position after that branch to its position at the end — is decoded by `readSeriesData`
+into exactly the spans the field blocks were written to, for any number of fields, any data
+lengths and any lengths of the offset codecs. This is the statement the seeded change c11-20
+(no re-base after the footer) falsifies: see `Neg.no_rebase_loses_first_series_of_later_buckets`. -/
+theorem block_series_entry_roundtrip (e : Enc) (hu : ∀ n, 0 < e.uvarLen n) (nf : Nat) (w : W)
+    (hw : Rebased w) (sid : Nat) (flds : List Nat) (hlen : flds.length = nf) (hnf : 1 ≤ nf)
+    (k : Nat) (hk : k < nf) :
+    let w1 := enterBucket ⟨true⟩ e w sid
+    let w2 := flushSeries ⟨true⟩ e nf w sid flds
+    w2.truth sid k = some (w1.size + sumL (flds.take k), flds[k]'(by omega)) ∧
+    readEntry w2.fldAt w2.lenAt nf w1.size w2.size k
+      = if nf ≠ 1 ∧ sumL flds = 0 then none
+        else some (w1.size + sumL (flds.take k), flds[k]'(by omega)) := by
+  have hr := enterBucket_rebased e w sid hw.1 hw.2
+  have hne : flds.isEmpty = false := by
+    cases flds with
+    | nil => simp at hlen; omega
+    | cons _ _ => rfl
+  have h2 : flushSeries ⟨true⟩ e nf w sid flds =
+      { writeEntry e nf (enterBucket ⟨true⟩ e w sid) sid flds with
+        l4 := (writeEntry e nf (enterBucket ⟨true⟩ e w sid) sid flds).size, fOffs := [] } := by
+    unfold flushSeries
+    simp [hne]
+  have := entry_roundtrip e hu nf (enterBucket ⟨true⟩ e w sid) sid flds hlen hnf hr.1 hr.2 k hk
+  intro w1 w2
+  simp only [w1, w2, h2]
+  exact this
+
+open LinVerif.MetricBlock LinVerif.Lemmas.C11Block in
+/-- non-vacuity + the whole block, executable: five series in three containers (65535 | 65536,
+65537 | 131072, 131073), three fields, one series without any data and one with an empty field:
+every field block is read back where it was written; also with one field. -/
+example : lostSeries ⟨true⟩ Enc.simple 3
+    [(65535, [3, 0, 4]), (65536, [5, 6, 1]), (65537, [0, 0, 0]), (131072, [2, 2, 2]), (131073, [1, 0, 0])] = [] ∧
+    lostSeries ⟨true⟩ Enc.simple 1 [(7, [3]), (65536, [5]), (196608, [2])] = [] := by decide
+
+/-- tie: the high-key branch of `FlushSeries` re-bases Level4 after the bucket footer (the model
+variant the driver runs is `⟨rebaseLevel4AfterBucketFooter⟩`), the deferred function re-bases it
+after every series, and the three offsets are taken against the bases the model uses. -/
+theorem block_offset_base_tie :
+    Driver.C11.blockCfgOfFacts = ⟨true⟩ ∧
+    Generated.C11.flushSeriesHighKeyBranch =
+      ["err := w.flushLevel2SeriesBucket()", "w.Level3.highKey = highKey", "w.Level3.lowKeyOffsets.Reset()",
+       "w.Level3.startAt = int(w.kvWriter.Size())", "w.Level2.highKeyOffsets.Add(int(w.kvWriter.Size()))",
+       "w.Level4.startAt = int(w.kvWriter.Size())"] ∧
+    Generated.C11.flushSeriesDeferred =
+      ["w.Level4.startAt = int(w.kvWriter.Size())", "w.Level4.fieldDataOffsets.Reset()"] ∧
+    Generated.C11.flusherOffsetBases =
+      ["flushField: int(w.kvWriter.Size()) - w.Level4.startAt",
+       "FlushSeries: int(w.kvWriter.Size()) - w.Level3.startAt",
+       "flushLevel2SeriesBucket: int(w.kvWriter.Size()) - w.Level3.startAt"] := by
+  refine ⟨by decide, by decide, by decide, by decide⟩
+
+/-! ## two loaders, one field entry (finding memdb-parallel-container-load-shares-field-entries)
+
+`timeSeriesIndex.Load` of one series-id container is, per series and field, the two steps
+`fm.Reset(page)` ; `DownSampling(… fm)` (which reads `fm.buf`). `shared = true`: the loaders of all
+containers use the same `*fieldEntry` (`memFilterResultSet.Load` hands out `rs.fields`); `false`:
+every loader has entries of its own (the candidate repair). -/
+
+/-- a step of loader `t`: `reset` points the entry at the loader's page `t`, `read` reads through it. -/
+inductive LStep where
+  | reset (t : Nat)
+  | read (t : Nat)
+deriving DecidableEq, Repr
+
+/-- the entry's `buf` per loader (`shared`: one cell for all) and what each `read` saw. -/
+def runLoaders (shared : Bool) : List LStep → (Nat → Option Nat) → List (Nat × Option Nat) → List (Nat × Option Nat)
+  | [], _, seen => seen
+  | .reset t :: rest, buf, seen =>
+    runLoaders shared rest (if shared then (fun _ => some t) else (fun x => if x = t then some t else buf x)) seen
+  | .read t :: rest, buf, seen => runLoaders shared rest buf (seen ++ [(t, buf t)])
+
+/-- every loader resets before it reads (program order of `timeSeriesIndex.Load`). -/
+def resetBeforeRead : List LStep → List Nat → Bool
+  | [], _ => true
+  | .reset t :: rest, rs => resetBeforeRead rest (t :: rs)
+  | .read t :: rest, rs => rs.contains t && resetBeforeRead rest rs
+
+theorem runLoaders_own_aux : ∀ (sched : List LStep) (buf : Nat → Option Nat) (seen : List (Nat × Option Nat))
+    (rs : List Nat), (∀ t, t ∈ rs → buf t = some t) → (∀ p, p ∈ seen → p.2 = some p.1) →
+    resetBeforeRead sched rs = true →
+    ∀ p, p ∈ runLoaders false sched buf seen → p.2 = some p.1
+  | [], _, _, _, _, hs, _ => by simpa [runLoaders] using hs
+  | .reset t :: rest, buf, seen, rs, hb, hs, hr => by
+    simp only [runLoaders, resetBeforeRead] at *
+    refine runLoaders_own_aux rest _ seen (t :: rs) ?_ hs hr
+    intro x hx
+    by_cases hxt : x = t
+    · simp [hxt]
+    · simp [hxt]
+      exact hb x (by simpa [hxt] using hx)
+  | .read t :: rest, buf, seen, rs, hb, hs, hr => by
+    simp only [runLoaders, resetBeforeRead, Bool.and_eq_true, List.contains_iff_mem] at *
+    refine runLoaders_own_aux rest buf _ rs hb ?_ hr.2
+    intro p hp
+    rcases List.mem_append.mp hp with h | h
+    · exact hs p h
+    · simp at h; subst h; exact hb t hr.1
+
+/-- with field entries of its own every loader reads its own series' page under EVERY interleaving
+of any number of loaders (the repaired code; full strength over schedules). -/
+theorem loaders_with_own_entries_read_own_page (sched : List LStep) (h : resetBeforeRead sched [] = true) :
+    ∀ p, p ∈ runLoaders false sched (fun _ => none) [] → p.2 = some p.1 :=
+  runLoaders_own_aux sched _ [] [] (by simp) (by simp) h
+
 /-! ## proved negations (witnesses replayed against the implementation on every run) -/
 
 namespace Neg
@@ -1273,6 +1410,24 @@ theorem rate_of_nil_array_panics :
   constructor <;> simp [LinVerif.QueryExpr.evalItem, LinVerif.QueryExpr.eval, LinVerif.QueryExpr.applyFunc,
     LinVerif.QueryExpr.binaryEval, LinVerif.QueryExpr.FArr.isEmpty, LinVerif.QueryExpr.paramOf,
     LinVerif.QueryExpr.defaultParam, Map.lookup, List.range, List.range.loop]
+
+/-! ### the metric block without the re-base; the shared field entry -/
+
+open LinVerif.MetricBlock in
+/-- the code of seeded change c11-20 (`Level4.startAt` not re-based after the bucket footer): two
+fields, series 65535 | 65536, 65537 | 131072 — exactly the first series of the 2nd and 3rd bucket
+are not read back; the current code reads all of them; a one-field metric is not affected. -/
+theorem no_rebase_loses_first_series_of_later_buckets :
+    lostSeries ⟨false⟩ Enc.simple 2 [(65535, [3, 4]), (65536, [5, 6]), (65537, [1, 1]), (131072, [2, 2])] = [65536, 131072] ∧
+    lostSeries ⟨true⟩ Enc.simple 2 [(65535, [3, 4]), (65536, [5, 6]), (65537, [1, 1]), (131072, [2, 2])] = [] ∧
+    lostSeries ⟨false⟩ Enc.simple 1 [(65535, [3]), (65536, [5]), (131072, [2])] = [] := by decide
+
+/-- finding `memdb-parallel-container-load-shares-field-entries` (current code): loader 0 resets,
+loader 1 resets, loader 0 reads — it reads loader 1's page; with entries of its own it reads its own. -/
+theorem shared_field_entry_reads_other_series :
+    runLoaders true [.reset 0, .reset 1, .read 0, .read 1] (fun _ => none) [] = [(0, some 1), (1, some 1)] ∧
+    runLoaders false [.reset 0, .reset 1, .read 0, .read 1] (fun _ => none) [] = [(0, some 0), (1, some 1)] := by
+  decide
 
 end Neg
 
